@@ -1050,6 +1050,7 @@ func parseBetween(state *pars.State, result *pars.Result) error {
 	}
 	end := result.Value.(int)
 	if start+1 != end {
+		state.Pop()
 		return fmt.Errorf("%d^%d is not a valid location: coordinates should be adjacent", start, end)
 	}
 	result.SetValue(Between(start))
@@ -1092,6 +1093,7 @@ func parseRange(state *pars.State, result *pars.Result) error {
 	state.Advance()
 	c, err = pars.Next(state)
 	if err != nil {
+		state.Pop()
 		return err
 	}
 	partial3 := false
